@@ -18,6 +18,16 @@ def case(rep, drv, rnd, i, tier):
     if not factpreds:
         return
     subset = [p for p in factpreds if rnd.random() < 0.6] or [rnd.choice(factpreds)]
+    twin = None
+    if rnd.random() < 0.3:
+        # the same name with another arity stays compiled, next to a variadic Python definition
+        name, arity = rnd.choice(subset)
+        if (name, arity + 1) not in factpreds:
+            twin = (name, arity)
+            extra = [(name, [('A', 'tw%d' % k)] + [('A', 'x')] * arity, 'tru') for k in range(rnd.randint(1, 2))]
+            prog = prog + extra
+            qs = qs + [(name, [[Sym('v'), 70 + k] for k in range(arity + 1)])]
+            rep.count('same-name-other-arity-compiled')
     rest = [c for c in prog if (c[0], len(c[1])) not in subset]
     # meta-calls on the replaced predicates straight from the API
     metaq = []
@@ -45,6 +55,8 @@ def case(rep, drv, rnd, i, tier):
     for (name, arity) in subset:
         rows = [progcheck.source_to_model_row(c[1]) for c in prog if (c[0], len(c[1])) == (name, arity)]
         style = rnd.choice(['explicit', 'inferred', 'variadic'])
+        if twin == (name, arity):
+            style = 'variadic'
         yv = rnd.choice([True, False])
         raise_at = rnd.randint(0, len(rows)) if raise_case and rnd.random() < 0.5 else None
         clauses = [c for c in prog if (c[0], len(c[1])) == (name, arity)]
